@@ -185,4 +185,28 @@ for t, ct in ITYPES:
     U('C02', 'c02.op.%s_f' % ct, '_ZN9fixedmathmlI%sNS_7fixed_tEvEEDaT_T0_' % t, kr[1], kr[2], replace=[ks], cxx='($1 * $2)', backends=MULBE, timeout=300)
     U('C02', 'c02.assign.%s' % ct, '_ZN9fixedmathmLI%svEERNS_7fixed_tES2_T_' % t, ks[1], ks[2], replace=[ks], cxx='($1 *= $2)', backends=MULBE, timeout=300)
 
+# ----------------------------------------------------------------------------- C03
+prop('C03', 'proof',
+     'fixed_divisionf is verified for all pairs of finite raw values: NaN for a zero divisor, otherwise NaN or '
+     '|q*y - x*2^16| < |y| in 128-bit arithmetic (within 2^-16 of the exact quotient), never NaN for |x| < 2^31; '
+     'fixed_division_by_scalar<T> is verified to return the truncated exact quotient for every non-zero divisor of '
+     'all 8 integral types (divisor as a mathematical integer) and NaN for zero. The division-by-zero and '
+     'INT64_MIN/-1 obligations of every division are the "never traps" clause. operator/ and operator/= are '
+     'verified with the kernels replaced by their contracts.')
+DIVF = '_ZN9fixedmath6detail15fixed_divisionfENS_7fixed_tES1_'
+K_DIVF = (DIVF, 'pre_c01', 'post_div_mul')
+K_SHL = (SHL, 'pre_c18', 'post_shl')
+U('C03', 'c03.div.kernel', DIVF, 'pre_c01', 'post_div_mul', cxx='fixedmath::detail::fixed_divisionf($1,$2)', engine='int', replace=[K_SHL], timeout=120)
+U('C03', 'c03.div.kernel.ub', DIVF, 'pre_c01', 'post_div_ub', cxx='fixedmath::detail::fixed_divisionf($1,$2)', backends=MULBE, timeout=300)
+U('C03', 'c03.div.kernel.bv', DIVF, 'pre_c01', 'post_div_mul', cxx='fixedmath::detail::fixed_divisionf($1,$2)', backends=MULBE, timeout=3000, split=True, tier='thorough')
+U('C03', 'c03.div.op', '_ZN9fixedmathdvINS_7fixed_tES1_vEEDaT_T0_', 'pre_c01', 'post_div_mul', replace=[K_DIVF], cxx='($1 / $2)', backends=MULBE, timeout=300)
+U('C03', 'c03.div.assign', '_ZN9fixedmathdVINS_7fixed_tEvEERS1_S2_T_', 'pre_c01', 'post_div_mul', replace=[K_DIVF], cxx='($1 /= $2)', backends=MULBE, timeout=300)
+for t, ct in ITYPES:
+    ks = ('_ZN9fixedmath6detail24fixed_division_by_scalarI%svEENS_7fixed_tES2_T_' % t, 'pre_muls_' + t, 'post_divs_mul_' + t)
+    U('C03', 'c03.divs.%s' % ct, ks[0], ks[1], 'post_divs_mul_' + t, cxx='fixedmath::detail::fixed_division_by_scalar($1,$2)', engine='int', timeout=120)
+    U('C03', 'c03.divs.ub.%s' % ct, ks[0], ks[1], 'post_divs_ub_' + t, cxx='fixedmath::detail::fixed_division_by_scalar($1,$2)', backends=MULBE, timeout=300)
+    U('C03', 'c03.divs.bv.%s' % ct, ks[0], ks[1], 'post_divs_mul_' + t, cxx='fixedmath::detail::fixed_division_by_scalar($1,$2)', backends=MULBE, timeout=3000, split=True, tier='thorough')
+    U('C03', 'c03.op.f_%s' % ct, '_ZN9fixedmathdvINS_7fixed_tE%svEEDaT_T0_' % t, ks[1], ks[2], replace=[ks], cxx='($1 / $2)', backends=MULBE, timeout=300)
+    U('C03', 'c03.assign.%s' % ct, '_ZN9fixedmathdVI%svEERNS_7fixed_tES2_T_' % t, ks[1], ks[2], replace=[ks], cxx='($1 /= $2)', backends=MULBE, timeout=300)
+
 NOT_APPLICABLE = {}
